@@ -72,11 +72,68 @@ def cmp_values(tol):
     return cmp
 
 
+# ---------------------------------------------------------------- stream: compose_svfs (BCH) over Q
+def gen_bch_stream(rng: random.Random, tier: str):
+    for _ in range(_n(tier, 6, 60)):
+        d = rng.choice([2, 2, 3])
+        shape = [5] * d if d == 3 else [rng.randint(5, 6) for _ in range(d)]
+        yield {"d": d, "shape": shape, "seed": rng.randrange(1 << 30), "terms": rng.randint(0, 5)}
+
+
+def _bch_uv(c):
+    return (random_field(c["seed"], c["d"], c["shape"], 0.25, denom=16),
+            random_field(c["seed"] + 11, c["d"], c["shape"], 0.25, denom=16))
+
+
+def impl_bch_stream(c):
+    u, v = _bch_uv(c)
+    w = U.compose_svfs(u.unsqueeze(0), v.unsqueeze(0), bch_terms=c["terms"])
+    return proto.flat(w[0])
+
+
+def line_bch_stream(c):
+    """brackets by the C12 model (`flowcalc.lie`, default stencil and spacing of lie_bracket), combination by
+    Model/FlowOps.bchCombine"""
+    from lib import lean
+
+    u, v = _bch_uv(c)
+    d = c["d"]
+    size = " ".join(str(n) for n in reversed(c["shape"]))
+    head = f"forward_central_backward {d} {size} 1 0 none"
+
+    def lie(a, b):
+        out = lean.eval_lines([f"flowcalc.lie {head} {proto.vec(proto.flat(a))} {proto.vec(proto.flat(b))}"])[0]
+        if proto.is_error(out):
+            raise RuntimeError("flowcalc.lie: " + out)
+        return out
+
+    def field(tokens):
+        return tokens
+
+    u_t, v_t = proto.vec(proto.flat(u)), proto.vec(proto.flat(v))
+    # model outputs are reused verbatim as the next inputs (exact rationals)
+    def lie_tok(a_tok, b_tok):
+        out = lean.eval_lines([f"flowcalc.lie {head} {a_tok} {b_tok}"])[0]
+        if proto.is_error(out):
+            raise RuntimeError("flowcalc.lie: " + out)
+        return out
+
+    vu = lie_tok(v_t, u_t)
+    vvu = lie_tok(v_t, vu)
+    uvu = lie_tok(u_t, vu)
+    uvvu = lie_tok(u_t, vvu)
+    return f"flow.bch {d} {size} {c['terms']} {u_t} {v_t} {vu} {vvu} {uvu} {uvvu}"
+
+
 STREAMS = PRIM_STREAMS + [
     Stream("compose_flows", gen_compose, impl_compose, line_compose, cmp_values(1e-9),
            nontrivial=lambda c: c["zero"] is None,
            doc="core.flow.compose_flows on small random fields (incl. zero fields, large displacements that clamp), both "
                "conventions, vs the model over Q"),
+    Stream("compose_svfs", gen_bch_stream, impl_bch_stream, line_bch_stream, cmp_values(1e-8),
+           nontrivial=lambda c: c["terms"] > 0,
+           doc="core.flow.compose_svfs (bch_terms 0..5) on random fields vs the model: Lie brackets by the C12 stencil model, "
+               "BCH combination by Model/FlowOps.bchCombine"),
 ]
 
 
